@@ -420,8 +420,13 @@ def main():
         if not os.path.exists(rp):
             continue
         c = json.load(open(rp))
-        v = c.get("variant") or variants[0]
-        exe = exes.get(v) or exes[variants[0]]
+        v = kf.get("variant") or c.get("variant") or variants[0]
+        if v not in exes:
+            if v not in B.VARIANTS:
+                v = variants[0]
+            else:
+                exes[v] = B.build_variant(v)
+        exe = exes[v]
         ks, det, rc, err = run_replay(exe, rp)
         if any(match_known({"findings": [kf]}, prop, k) for k in ks):
             known_hits[kf["id"]] = kf
